@@ -113,8 +113,137 @@ fn hunt_sound() -> ! {
     std::process::exit(0)
 }
 
+
+/// Property-level bounded searches on the real library, used only AFTER a proof obligation tagged with that property has failed.
+/// Each prints `failing input: FLAGS -- words` and exits 1 on the first input on which the property visibly fails, else exits 0.
+fn hunt_prop(prop: &str) -> ! {
+    fn words(alphabet: &[char], max_len: usize) -> Vec<String> {
+        let mut out = vec![]; let mut layer = vec![String::new()];
+        for _ in 0..max_len { let mut next = vec![]; for w in &layer { for c in alphabet { let mut x = w.clone(); x.push(*c); next.push(x); } } out.extend(next.iter().cloned()); layer = next; }
+        out
+    }
+    fn sets(ws: &[String], max: usize) -> Vec<Vec<String>> {
+        let mut out = vec![];
+        for i in 0..ws.len() { out.push(vec![ws[i].clone()]); if max >= 2 { for j in i + 1..ws.len() { out.push(vec![ws[i].clone(), ws[j].clone()]); } } }
+        out
+    }
+    fn apply(b: &mut RegExpBuilder, flags: &[&str]) {
+        for f in flags { match *f {
+            "--repetitions" => { b.with_conversion_of_repetitions(); } "--verbose" => { b.with_verbose_mode(); } "--capture-groups" => { b.with_capturing_groups(); }
+            "--escape" => { b.with_escaping_of_non_ascii_chars(false); } "--ignore-case" => { b.with_case_insensitive_matching(); }
+            "--no-start-anchor" => { b.without_start_anchor(); } "--no-end-anchor" => { b.without_end_anchor(); } "--no-anchors" => { b.without_anchors(); }
+            "--min-rep-2" => { b.with_minimum_repetitions(2); } "--min-len-2" => { b.with_minimum_substring_length(2); }
+            "--digits" => { b.with_conversion_of_digits(); } "--words" => { b.with_conversion_of_words(); } "--spaces" => { b.with_conversion_of_whitespace(); }
+            _ => {} } }
+    }
+    fn fail(flags: &[&str], set: &[String], why: &str, out: &str) -> ! {
+        let fl: Vec<String> = flags.iter().map(|f| match *f { "--min-rep-2" => "--min-rep 2".to_string(), "--min-len-2" => "--min-len 2".to_string(), x => x.to_string() }).collect();
+        let ws: Vec<String> = set.iter().map(|w| format!("'{}'", w.chars().map(|c| if c.is_ascii() && c != '\'' && c != '\\' { c.to_string() } else { format!("\\u{{{:x}}}", c as u32) }).collect::<String>())).collect();
+        println!("failing input: {} -- {}", fl.join(" "), ws.join(" "));
+        println!("regex: {out}\nwhy: {why}");
+        std::process::exit(1)
+    }
+    let full = |re: &Regex, s: &str| re.find(s).map_or(false, |m| m.start() == 0 && m.end() == s.len());
+    let mut tried = 0u64;
+    match prop {
+        // presentation options and repetition conversion must not change the language
+        // (C05 has no search of its own: the recorded known finding KF2 already fails on most small inputs with repeated letters)
+        "C06" => {
+            let (alphabet, probes, variants): (Vec<char>, Vec<char>, Vec<Vec<&str>>) = if prop == "C05" {
+                (vec!['a', 'b'], vec!['a', 'b'], vec![vec!["--repetitions"], vec!["--repetitions", "--min-rep-2"], vec!["--repetitions", "--min-len-2"]])
+            } else {
+                (vec!['a', ' ', '#', '\u{2003}', '\u{e9}'], vec!['a', ' ', '#', '\u{2003}', '\u{2004}', '\t', '\u{e9}', 'b'], vec![vec!["--verbose"], vec!["--capture-groups"], vec!["--escape"], vec!["--verbose", "--capture-groups", "--escape"]])
+            };
+            let ws = words(&alphabet, if prop == "C05" { 5 } else { 2 });
+            let universe = { let mut u = words(&probes, if prop == "C05" { 6 } else { 3 }); u.push(String::new()); u };
+            for set in sets(&ws, 2) {
+                let plain = RegExpBuilder::from(&set).build();
+                let Ok(re0) = Regex::new(&plain) else { continue };
+                for v in &variants {
+                    tried += 1;
+                    let mut b = RegExpBuilder::from(&set); apply(&mut b, v);
+                    let out = b.build();
+                    let Ok(re) = Regex::new(&out) else { fail(v, &set, "the pattern does not compile", &out) };
+                    for u in &universe { if full(&re0, u) != full(&re, u) { fail(v, &set, &format!("accepts {:?}: {} with the option, {} without", u, full(&re, u), full(&re0, u)), &out) } }
+                    if prop == "C06" && v.contains(&"--capture-groups") && out.contains("(?:") { fail(v, &set, "a non-capturing group in a capturing build", &out) }
+                    if prop == "C06" && !v.contains(&"--capture-groups") && Regex::new(&out).unwrap().captures_len() > 1 { fail(v, &set, "a capturing group without the option", &out) }
+                }
+            }
+        }
+        // with an anchor disabled, searching a test case returns the whole test case
+        "C08" => {
+            let ws = { let mut w = words(&['a', 'b'], 3); w.push(String::new()); w };
+            for set in sets(&ws, 2) { for v in [vec!["--no-start-anchor"], vec!["--no-end-anchor"], vec!["--no-anchors"]] {
+                tried += 1;
+                let mut b = RegExpBuilder::from(&set); apply(&mut b, &v);
+                let out = b.build();
+                let Ok(re) = Regex::new(&out) else { fail(&v, &set, "the pattern does not compile", &out) };
+                if (v[0] == "--no-end-anchor") != out.starts_with('^') { fail(&v, &set, "^ present/absent against the options", &out) }
+                if (v[0] == "--no-start-anchor") != out.ends_with('$') { fail(&v, &set, "$ present/absent against the options", &out) }
+                if set.len() > 1 && set.contains(&String::new()) { continue }      // known finding KF1
+                for tc in &set { if re.find(tc).map(|m| m.as_str() == tc) != Some(true) { fail(&v, &set, &format!("find({:?}) does not return the whole test case", tc), &out) } }
+            } }
+        }
+        // braces only on request, counts above the minimum, units of the minimum length
+        "C13" => {
+            let ws = words(&['a', 'b'], 6);
+            let brace = Regex::new(r"\{(\d+)(?:,(\d+))?\}").unwrap();
+            for set in sets(&ws, 1) { for v in [vec![], vec!["--repetitions"], vec!["--repetitions", "--min-rep-2"], vec!["--repetitions", "--min-len-2"]] {
+                tried += 1;
+                let mut b = RegExpBuilder::from(&set); apply(&mut b, &v);
+                let out = b.build();
+                if v.is_empty() && out.contains('{') { fail(&v, &set, "a quantifier without repetition conversion", &out) }
+                let min = if v.contains(&"--min-rep-2") { 2 } else { 1 };
+                for c in brace.captures_iter(&out) { let hi: u32 = c.get(2).or(c.get(1)).unwrap().as_str().parse().unwrap(); if hi <= min { fail(&v, &set, &format!("count {hi} is not above the minimum {min}"), &out) } }
+                if v.contains(&"--min-len-2") && Regex::new(r"(^|[^)])[ab]\{").unwrap().is_match(&out) { fail(&v, &set, "a one-character unit is quantified although the minimum substring length is 2", &out) }
+            } }
+        }
+        // highlighting only adds colour codes
+        "C15" => {
+            let sgr = Regex::new("\u{1b}\\[[0-9;]*m").unwrap();
+            let ws = words(&['a', 'b', '1'], 3);
+            for set in sets(&ws, 2) { for v in [vec![], vec!["--verbose"], vec!["--repetitions"], vec!["--digits", "--verbose"], vec!["--no-anchors", "--verbose", "--repetitions"], vec!["--ignore-case", "--verbose"], vec!["--capture-groups"]] {
+                tried += 1;
+                let mut b = RegExpBuilder::from(&set); apply(&mut b, &v);
+                let plain = b.build();
+                let mut c = RegExpBuilder::from(&set); apply(&mut c, &v); c.with_syntax_highlighting();
+                let colored = c.build();
+                if sgr.replace_all(&colored, "") != plain { fail(&v, &set, &format!("with the colour codes removed the highlighted output is {:?}", sgr.replace_all(&colored, "")), &plain) }
+            } }
+        }
+        // case-insensitive matching accepts every test case whatever its casing
+        "C04" => {
+            let ws = words(&['a', 'B', '\u{130}', '\u{3a3}'], 3);
+            for set in sets(&ws, 2) { for v in [vec!["--ignore-case"], vec!["--ignore-case", "--verbose"]] {
+                tried += 1;
+                let mut b = RegExpBuilder::from(&set); apply(&mut b, &v);
+                let out = b.build();
+                if !out.starts_with("(?i") { fail(&v, &set, "the pattern does not carry the (?i) flag", &out) }
+                let Ok(re) = Regex::new(&out) else { fail(&v, &set, "the pattern does not compile", &out) };
+                for tc in &set { if !full(&re, tc) { fail(&v, &set, &format!("test case {:?} is not matched", tc), &out) } }
+            } }
+        }
+        // escaped output is pure ASCII
+        "C11" => {
+            let ws = words(&['a', '\u{e9}', '\u{2665}', '\u{1f4a9}'], 3);
+            for set in sets(&ws, 2) { for v in [vec!["--escape"], vec!["--escape", "--repetitions"], vec!["--escape", "--verbose"]] {
+                tried += 1;
+                let mut b = RegExpBuilder::from(&set); apply(&mut b, &v);
+                let out = b.build();
+                if !out.is_ascii() { fail(&v, &set, "the escaped pattern is not pure ASCII", &out) }
+                let Ok(re) = Regex::new(&out) else { fail(&v, &set, "the pattern does not compile", &out) };
+                for tc in &set { if !full(&re, tc) { fail(&v, &set, &format!("test case {:?} is not matched", tc), &out) } }
+            } }
+        }
+        _ => { println!("hunt-prop: no search for {prop}"); std::process::exit(0) }
+    }
+    println!("hunt-prop {prop}: {tried} builds tried, none fails");
+    std::process::exit(0)
+}
+
 fn main() {
     let args: Vec<String> = std::env::args().skip(1).collect();
+    if args.first().map(|a| a == "hunt-prop").unwrap_or(false) { hunt_prop(args.get(1).map(|x| x.as_str()).unwrap_or("")) }
     if args.first().map(|a| a == "hunt-sound").unwrap_or(false) { hunt_sound() }
     if args.first().map(|a| a == "hunt-lang").unwrap_or(false) { hunt_lang(args.iter().any(|a| a == "--ignore-kf1")) }
     let split = args.iter().position(|a| a == "--").expect("usage: ... -- TESTCASE...");
